@@ -982,6 +982,12 @@ FILES = {
 
 def trusted_note(key):
     """the entry a harness module adds to its TRUSTED list"""
+    if key in STMT_KEYS:
+        return ("harness/translator/py2lean.py + py2lean_stmt.py (statement-level ast translation of the anchored code of %s into "
+                "Generated/%s, proved equal to the hand-written model on every run; its TARGETS table -- binders, the attribute -> "
+                "field map, which callee is which definition / model helper, the obligation statements and proof scripts -- and its "
+                "stated conventions -- SSA, `self` as a state record, raising builtins as guards, loops as recursions -- and "
+                "Lemmas/SrcLib.lean are trusted)" % (FILES[key][0], FILES[key][1]))
     return ("harness/translator/py2lean.py (ast translation of the anchored arithmetic of %s into Generated/%s, proved equal to "
             "the hand-written model by rfl on every run; its TARGETS table -- binders, which callee is which parameter, the obligation "
             "statements -- and its stated conventions -- elementwise broadcasting, sqrt/exp/log/pow as named parameters -- are trusted)"
@@ -991,6 +997,16 @@ def trusted_note(key):
 def manifest_note(key):
     """sentence appended to MANIFEST['note'] of the property that owns `key`"""
     fs = []
+    if key in STMT_KEYS:
+        for cfg in py2lean_stmt.TARGETS:
+            if cfg["file"] == key and cfg["func"] not in fs:
+                fs.append(cfg["func"])
+        return ("Source translator (statement level): these parts of %s are re-translated from the source text into Lean on every "
+                "run (Generated/%s), statement by statement (attribute reads/writes of `self` as fields of the model's state record, "
+                "raising calls as `Except`, loops as recursions), and proved EQUAL to the hand-written model definitions (rfl, case "
+                "analysis, or an induction relating the generated loop to the model's recursion): %s; an edit of those lines "
+                "breaks a generated obligation and triggers the failing-input search (trusted: the translator's stated conventions, "
+                "its TARGETS table and Lemmas/SrcLib.lean)." % (FILES[key][0], FILES[key][1], ", ".join(fs)))
     for cfg in TARGETS:
         if cfg["file"] == key:
             f = cfg["func"] if cfg["region"] == "function" else "%s (%s)" % (cfg["func"], cfg["lean"])
@@ -1005,6 +1021,11 @@ def manifest_note(key):
 def prop_file(key):
     """path of the generated file of `key`, relative to the lean project (for PROP_FILES)"""
     return "/".join(["PersimVerif", "Generated", FILES[key][1]])
+
+
+def prop_files(key):
+    """the generated file of `key` preceded by the hand-written library / bridging lemma files it imports (for PROP_FILES)"""
+    return list(py2lean_stmt.BRIDGES.get(key, [])) + [prop_file(key)]
 
 
 # ----------------------------------------------------------------------------- regions
@@ -1259,6 +1280,8 @@ def header(key):
 
 
 def render_file(key, root):
+    if key in STMT_KEYS:
+        return py2lean_stmt.render_file(key, root)
     py, out, ns, model, prop = FILES[key]
     o, info = [header(key)], {"source": py, "output": "/".join([GEN.replace(os.sep, "/"), out]), "functions": {}}
     src, fns, file_err = "", {}, None
@@ -1398,6 +1421,14 @@ def report_broken(ctx, prop_files):
         print("generated/proved obligations that no longer check: %s" % ", ".join(bt), flush=True)
     ctx.extra["broken_obligations"] = bt
     return bt
+
+
+# the statement-level engine registers its files here (keys of STMT_KEYS are rendered by py2lean_stmt.render_file)
+STMT_KEYS = set()
+from . import py2lean_stmt  # noqa: E402
+for _k, _v in py2lean_stmt.FILES.items():
+    FILES[_k] = _v[:5]
+    STMT_KEYS.add(_k)
 
 
 if __name__ == "__main__":
